@@ -21,7 +21,7 @@ LEVEL_TEXT = ("Two mechanism-level TLA+ models. SockXfer: the send loop and the 
               "is executed on real objects with the descriptor census compared after every step.")
 LEVEL_NOTE = ("Schedules are bounded to the first k calls of each side; the sender has finished before the receiver starts (single-threaded "
               "driver). Lifecycle scope: one object per role plus one copy, 4-5 descriptors, 3-4 sockets, 1 message in flight per direction; "
-              "open is offered only on an object that holds no descriptor; injected failures replace the system call. The as-built loops are "
+              "open is offered on fresh, closed and failed-open objects and again on open ones (retry after a failure at socket/bind/listen/connect); injected failures replace the system call. The as-built loops are "
               "kept as a second mechanism (cfg *_asbuilt*) only to show that TLC refutes them by itself. Byte VALUES are not enumerated by "
               "TLC (counts are); value integrity is checked by the driver's position-dependent payload.")
 TECHNIQUE = "TLA+ mechanism specs + TLC exhaustive schedule/transition enumeration replayed on the implementation by link-time fault injection"
@@ -191,7 +191,7 @@ def life(ctx, exe):
     if not res.ok:
         ctx.report("spec:%s" % cfg, "TLC reports a violated property of the repaired lifecycle mechanism: %s" % (res.violation or "")[:600],
                    {"tlc": res.violation, "cfg": cfg})
-    need = {"new", "recv", "dup", "del", "open:ok", "open:socket", "open:bind", "open:listen", "open:connect", "open:nolistener",
+    need = {"new", "recv", "dup", "del", "open:ok", "open:socket", "open:bind", "open:listen", "open:connect", "open:nolistener", "open:unbound", "open:isconn",
             "accept:ok", "accept:eintr", "accept:bad", "send:ok", "send:epipe", "send:reset", "send:badfd", "send:notconn",
             "send:peerdead", "close:ok", "close:eintr"}
     missing = sorted(need - set(per_op))
